@@ -36,6 +36,7 @@ class Ctx:
         self.skipped = collections.Counter()   # cases deliberately left unspecified, by reason
         self.extra = collections.Counter()     # free-form counters per check
         self.outcomes = set()
+        self.stateset = set()      # hashes of canonical states (explicit-state searches): the runner counts their union
         self.samples = []
         self.viol = {}             # class -> [count, minimal case, detail, size]
         self.limit = limit
@@ -73,7 +74,7 @@ class Ctx:
     def export(self):
         return dict(states=self.states, transitions=self.transitions, evals=self.evals, validated=self.validated,
                     nontrivial=self.nontrivial, skipped=dict(self.skipped), extra=dict(self.extra),
-                    outcomes=self.outcomes, samples=self.samples, viol=self.viol)
+                    outcomes=self.outcomes, stateset=self.stateset, samples=self.samples, viol=self.viol)
 
 
 _CTX = None
@@ -257,6 +258,7 @@ def run_check(pid, tier):
     skipped = collections.Counter()
     extra = collections.Counter()
     outcomes = set()
+    stateset = set()
     samples = []
     ctxmp = mp.get_context('fork')
     with ProcessPoolExecutor(max_workers=procs, mp_context=ctxmp, initializer=_worker_init) as ex:
@@ -271,11 +273,14 @@ def run_check(pid, tier):
             extra.update(res['extra'])
             if len(outcomes) < OUTCOME_CAP:
                 outcomes |= res['outcomes']
+            stateset |= res['stateset']
             for s in res['samples']:
                 if len(samples) < 12:
                     samples.append(s)
             for cls, (count, case, detail, _size) in res['viol'].items():
                 add_viol(cls, count, case, detail)
+
+    tot['states'] += len(stateset)
 
     # 3. classify
     new = []
@@ -356,7 +361,8 @@ def run_check(pid, tier):
     for l in lines:
         print(l)
     if exit_code == 0:
-        print('OK property=%s held on everything explored' % pid)
+        print('OK property=%s held on everything explored%s' % (pid, ' (apart from the listed known findings)' if any(
+            l.startswith('KNOWN-FINDING:') for l in lines) else ''))
     return exit_code
 
 
